@@ -324,11 +324,22 @@ func genC12Case(t *rapid.T) *C12Case {
 	type base struct {
 		call  *Call
 		regen func() (desc.V, bool)
+		fresh func() *Call // rule-family bases: every use draws new arguments and a new value for the same rule
 	}
 	var bases []base
 	nb := rapid.IntRange(1, 4).Draw(t, "nBases")
 	for i := 0; i < nb; i++ {
-		switch rapid.IntRange(0, 4).Draw(t, "baseKind") {
+		switch rapid.IntRange(0, 6).Draw(t, "baseKind") {
+		case 5, 6:
+			// one rule of the catalogue used several times with different arguments
+			// (separators, option lists, patterns, bounds) and values: state kept inside a
+			// rule's implementation would carry over from one use to the next
+			rule := rapid.SampledFrom(c05RuleNames).Draw(t, "familyRule")
+			fresh := func() *Call {
+				sc, _ := genC05CaseFor(t, rule)
+				return &Call{V: sc}
+			}
+			bases = append(bases, base{call: fresh(), regen: func() (desc.V, bool) { return desc.V{}, false }, fresh: fresh})
 		case 0, 1: // synthesised multi-tag type with override + per-call functions named like built-ins
 			g, ty := genMultiTagType(t, mg, rapid.IntRange(0, 2).Draw(t, "depth"))
 			s := &StructCase{Root: desc.Ptr(ty), Val: desc.V{E: []desc.V{g.genValueFor(ty, 0)}}}
@@ -348,7 +359,7 @@ func genC12Case(t *rapid.T) *C12Case {
 			}
 			s.pickEntry(rapid.IntRange(0, 7).Draw(t, "entry"))
 			root := s.Root
-			bases = append(bases, base{&Call{S: s}, func() (desc.V, bool) { return desc.V{E: []desc.V{g.genValueFor(*root.Elem, 0)}}, true }})
+			bases = append(bases, base{call: &Call{S: s}, regen: func() (desc.V, bool) { return desc.V{E: []desc.V{g.genValueFor(*root.Elem, 0)}}, true }})
 		case 2, 3: // named library types with per-type rule sets
 			s := genNamedCase(t, namedOpts{roots: []string{"Mid", "Leaf", "Top", "Tree"}, marks: []string{"required", "exist", "-"},
 				msgMode: 3, maxDepth: 2, density: 6, extra: []string{"cfn1", "gcustom1", "shadowed", "nosuch", "phone"}, unscoped: false,
@@ -359,9 +370,9 @@ func genC12Case(t *rapid.T) *C12Case {
 				}
 			}
 			s.pickEntry(rapid.IntRange(0, 7).Draw(t, "entry"))
-			bases = append(bases, base{&Call{S: s}, func() (desc.V, bool) { return desc.V{}, false }})
+			bases = append(bases, base{call: &Call{S: s}, regen: func() (desc.V, bool) { return desc.V{}, false }})
 		default:
-			bases = append(bases, base{&Call{V: genScalarCall(t, mg)}, func() (desc.V, bool) { return desc.V{}, false }})
+			bases = append(bases, base{call: &Call{V: genScalarCall(t, mg)}, regen: func() (desc.V, bool) { return desc.V{}, false }})
 		}
 	}
 	c := &C12Case{}
@@ -371,7 +382,9 @@ func genC12Case(t *rapid.T) *C12Case {
 		if i < len(bases) {
 			b = bases[i]
 		}
-		if rapid.IntRange(0, 2).Draw(t, "asIs") == 0 {
+		if b.fresh != nil && rapid.IntRange(0, 3).Draw(t, "familyFresh") > 0 {
+			c.Calls = append(c.Calls, b.fresh())
+		} else if rapid.IntRange(0, 2).Draw(t, "asIs") == 0 {
 			c.Calls = append(c.Calls, b.call)
 		} else {
 			c.Calls = append(c.Calls, c12Variant(t, b.call, b.regen))
